@@ -314,6 +314,7 @@ pub fn record_classes(c: &Classes, p: &Prepared, st: &mut Stats) {
     flag("surface.both_empty_forms", p.ser.selfclosed > 0 && p.ser.expanded_empty > 0);
     flag("surface.general_entity_refs", p.ser.entity_refs > 0);
     flag("surface.xsi_nil_true", p.ser.nil_true > 0);
+    flag("surface.declared_legacy_encoding", p.ser.legacy_decl > 0);
 }
 
 // ---------------------------------------------------------------------------------------
